@@ -14,6 +14,10 @@ A state wrapper writes to the layer of the context it was created from — which
 layer while an overlay is open.
 
 Variables are numbers (the generator numbers them per root); 0 is "unknown ⇒ outermost layer".
+
+The meaning of a `Flow` term is given by the concrete path semantics `Path` of `FlowSem.lean`;
+`flagged` is proved sound and `errSites` complete against it in `OasisProofs/Props/C08Sound.lean`
+and `C10Sound.lean`.
 Core Lean only.
 -/
 namespace OasisModel.Handlers
@@ -43,6 +47,20 @@ inductive Flow where
   | closureRet                            -- return inside a function literal
 deriving Repr, Inhabited
 
+mutual
+/-- Nesting depth: the fuel `sitesAux` needs (it spends one unit per level). -/
+def Flow.depth : Flow → Nat
+  | .seq l => Flow.depthL l + 1
+  | .alt l => Flow.depthL l + 1
+  | .loop b => b.depth + 1
+  | .call _ b => b.depth + 1
+  | .ifErr t e => max t.depth e.depth + 1
+  | _ => 1
+def Flow.depthL : List Flow → Nat
+  | [] => 0
+  | g :: gs => max g.depth (Flow.depthL gs)
+end
+
 /-- Status of the error value of the most recent fallible call. -/
 inductive Pend where
   | no | yes | yesW | unk | unkW
@@ -66,6 +84,8 @@ deriving DecidableEq, Repr
 
 inductive Kind where
   | ok | err | errW | maybe
+  | maybeW   -- ok, or the failure of a state write / total read (state unavailable)
+  | brk      -- not a return of the function: `return` inside a function literal (leaves the closure)
 deriving DecidableEq, Repr
 
 structure Exit where
@@ -98,20 +118,53 @@ def union {α} [DecidableEq α] (a b : List α) : List α := b.foldl (fun acc x 
 def commitTop : List Bool → List Bool
   | [] => []
   | [b] => [b]
-  | ls =>
-    let top := ls.getLast!
-    let rest := ls.dropLast
-    let below := rest.getLast!
-    rest.dropLast ++ [below || top]
+  | [below, top] => [below || top]
+  | b :: rest => b :: commitTop rest
 
 /-- Result of running a flow from a set of states: the states that fall through and the exits. -/
 structure Res where
   cont : List AState
   exits : List Exit
+deriving DecidableEq
 
 def Res.empty : Res := { cont := [], exits := [] }
 
 def Res.merge (a b : Res) : Res := { cont := union a.cont b.cont, exits := union a.exits b.exits }
+
+def mergeO : Option Res → Option Res → Option Res
+  | some a, some b => some (a.merge b)
+  | _, _ => none
+
+/-- Run `k` from every state of `ss`, accumulating into `init`. -/
+def overStates (k : AState → Option Res) (ss : List AState) (init : Option Res) : Option Res :=
+  ss.foldl (fun acc st => mergeO acc (k st)) init
+
+/-- Sequential composition: each flow is run from every state that fell through the previous one. -/
+def seqFold (k : Flow → AState → Option Res) (fs : List Flow) (init : Option Res) : Option Res :=
+  fs.foldl (fun acc g =>
+    match acc with
+    | none => none
+    | some r => overStates (k g) r.cont (some { cont := [], exits := r.exits })) init
+
+/-- A loop iteration that ended with `return` inside a function literal: the closure is left, the
+enclosing loop (the generator wraps every function literal in `loop`) goes on from that state —
+with the error-branch marker it had when the iteration started.  The exit is ALSO kept, because
+the loop that stands for the closure may be a loop further out. -/
+def catchBrk (src : Src) (r : Res) : Res :=
+  { cont := r.exits.foldl (fun acc e => if e.kind = .brk then insertNew { e.st with src := src } acc else acc) r.cont,
+    exits := r.exits }
+
+/-- One more unrolling of a loop body from every state reached so far (results accumulate). -/
+def loopStep (k : AState → Option Res) (r : Res) : Option Res :=
+  overStates (fun st => (k st).map (catchBrk st.src)) r.cont (some r)
+
+/-- Unroll until nothing new is reached (`none` = fuel exhausted before the fixpoint). -/
+def loopFix (k : AState → Option Res) : Nat → Res → Option Res
+  | 0, _ => none
+  | n + 1, r =>
+    match loopStep k r with
+    | none => none
+    | some r' => if r' = r then some r else loopFix k n r'
 
 def exitKindLast (s : AState) : Kind :=
   match s.pend with
@@ -119,7 +172,7 @@ def exitKindLast (s : AState) : Kind :=
   | .yesW => .errW
   | .no => .ok
   | .unk => .maybe
-  | .unkW => .ok   -- fails only if the write itself failed (state unavailable); otherwise ok
+  | .unkW => .maybeW   -- fails only if the write itself failed (state unavailable); otherwise ok
 
 /-- `return …, err`: inside an error branch the error is the one that brought us there; outside
 one it is whatever the most recent fallible call returned. -/
@@ -133,38 +186,25 @@ def exitKindVar (s : AState) : Kind :=
 def origin (s : AState) (pos : String) : String :=
   if s.errPos ≠ "" && (s.src == .call || (s.src == .none && (s.pend == .yes || s.pend == .unk))) then s.errPos else pos
 
-/-- One state through one flow. `fuel` bounds loop unrolling; `none` = fuel exhausted. -/
+/-- State of the caller after an inlined callee left through exit `e`: the overlays the callee
+opened are discarded, the caller's context variables are its own again. -/
+def back (s : AState) (e : Exit) : AState :=
+  { layers := e.st.layers.take s.layers.length, ctxDepth := s.ctxDepth, bind := e.st.bind,
+    pend := (match e.kind with
+      | .ok | .brk => .no | .err => .yes | .errW => .yesW | .maybe => .unk | .maybeW => .unkW),
+    src := s.src, errPos := (match e.kind with | .ok | .brk => "" | _ => e.pos) }
+
+/-- One state through one flow. `fuel` bounds nesting depth and loop unrolling; `none` = fuel exhausted. -/
 def run : Nat → Flow → AState → Option Res
   | 0, _, _ => none
   | fuel + 1, f, s =>
-    let runList : List Flow → List AState → Option Res := fun fs ss =>
-      fs.foldl (fun acc g =>
-        match acc with
-        | none => none
-        | some r =>
-          r.cont.foldl (fun acc2 st =>
-            match acc2, run fuel g st with
-            | some a, some b => some { cont := union a.cont b.cont, exits := union a.exits b.exits }
-            | _, _ => none) (some { cont := [], exits := r.exits })) (some { cont := ss, exits := [] })
     match f with
     | .skip => some { cont := [s], exits := [] }
-    | .seq l => runList l [s]
-    | .alt l =>
-      l.foldl (fun acc g =>
-        match acc, run fuel g s with
-        | some a, some b => some (a.merge b)
-        | _, _ => none) (some Res.empty)
+    | .seq l => seqFold (run fuel) l (some { cont := [s], exits := [] })
+    | .alt l => l.foldl (fun acc g => mergeO acc (run fuel g s)) (some Res.empty)
     | .loop body =>
-      -- 0, 1, 2, 3 iterations; the abstract state space saturates quickly
-      let step : Option Res → Option Res := fun acc =>
-        match acc with
-        | none => none
-        | some r =>
-          r.cont.foldl (fun acc2 st =>
-            match acc2, run fuel body st with
-            | some a, some b => some (a.merge b)
-            | _, _ => none) (some r)
-      step (step (step (some { cont := [s], exits := [] })))
+      -- unrolled until the set of reachable abstract states is closed under the body
+      loopFix (run fuel body) fuel { cont := [s], exits := [] }
     | .ext => some { cont := [{ s with pend := .unk }], exits := [] }
     | .extU => some { cont := [{ s with pend := .unkW }], exits := [] }
     | .write v _ =>
@@ -181,23 +221,17 @@ def run : Nat → Flow → AState → Option Res
     | .publish c =>
       some { cont := [{ s with layers := setAt s.layers (look s.ctxDepth c), pend := .unk }], exits := [] }
     | .call _ body =>
-      match run fuel body s with
+      -- the callee has its own `err`: it starts outside any error branch, nothing pending
+      match run fuel body { s with pend := .no, src := .none } with
       | none => none
       | some r =>
         -- falling off the end of the callee = return without error value
         let exits := r.exits ++ r.cont.map (fun st => { st := st, kind := .ok, pos := "" })
-        let back : Exit → AState := fun e =>
-          { layers := e.st.layers.take s.layers.length, ctxDepth := s.ctxDepth, bind := e.st.bind,
-            pend := (match e.kind with | .ok => .no | .err => .yes | .errW => .yesW | .maybe => .unk),
-            src := s.src, errPos := (match e.kind with | .ok => "" | _ => e.pos) }
-        some { cont := exits.foldl (fun acc e => insertNew (back e) acc) [], exits := [] }
+        some { cont := exits.foldl (fun acc e => insertNew (back s e) acc) [], exits := [] }
     | .ifErr t e =>
       let thenS : Src → AState := fun src => { s with src := src, pend := .no }
       let elseS : AState := { s with src := .none, pend := .no }
-      let both : Src → Option Res := fun src =>
-        match run fuel t (thenS src), run fuel e elseS with
-        | some a, some b => some (a.merge b)
-        | _, _ => none
+      let both : Src → Option Res := fun src => mergeO (run fuel t (thenS src)) (run fuel e elseS)
       let after : Option Res → Option Res := fun r =>
         r.map fun r => { r with cont := r.cont.foldl (fun acc st => insertNew { st with src := s.src } acc) [] }
       after (match s.pend with
@@ -214,7 +248,7 @@ def run : Nat → Flow → AState → Option Res
     | .retLast pos => some { cont := [], exits := [{ st := s, kind := exitKindLast s, pos := origin s pos }] }
     | .retMaybe pos => some { cont := [], exits := [{ st := s, kind := .maybe, pos := pos }] }
     | .halt => some { cont := [], exits := [] }
-    | .closureRet => some { cont := [s], exits := [] }
+    | .closureRet => some { cont := [], exits := [{ st := s, kind := .brk, pos := "" }] }
 
 /-- Is the block's state tree dirty at this exit? (open overlays are discarded on return) -/
 def outerDirty (e : Exit) : Bool := e.st.layers.headD false
@@ -230,36 +264,45 @@ def flagged (fuel : Nat) (f : Flow) : Option (List String) :=
       if outerDirty e && (e.kind == .err || e.kind == .maybe) then insertNew e.pos acc else acc) [])
 
 /-- Syntactic collection of the return sites at which a function may report an ordinary (not
-state-unavailable) error: the fatal-path ledger of a BeginBlock/EndBlock root (C10).  Linear walk;
-`src` is the kind of the most recent fallible call (so that `if err != nil { return … }` directly
-after a state write / total read is recognised as a state-unavailable return and skipped).
+state-unavailable) error: the fatal-path ledger of a BeginBlock/EndBlock root (C10).  Linear walk.
+`br` is the kind of the call whose error selected the innermost enclosing `if err != nil`
+then-branch (`none` outside of one); `src` is the kind of the most recent fallible call (on entry
+of a then-branch: of the call that was tested).  A site is skipped only when the error it returns
+is a state-unavailable error or was already listed inside an inlined callee:
+  * `retErr` directly in the then-branch of a failed state write / total read;
+  * `retErrVar` when the tested error (in a then-branch) resp. the most recent call (outside) is a
+    state write / total read or an inlined callee — but not when the tested call was opaque and a
+    later call merely happened in between (`if err != nil { cleanup(); return err }`);
+  * `retLast` when the call just made is a state write or an inlined callee.
+A loop body is walked twice: with the call kind at loop entry and with "unknown" (later iterations).
 Returns the sites and the call kind at the end of the flow. -/
-def sitesAux : Nat → Flow → Src → List String × Src
-  | 0, _, src => ([], src)
-  | fuel + 1, f, src =>
+def sitesAux : Nat → Flow → Src → Src → List String × Src
+  | 0, _, _, src => ([], src)
+  | fuel + 1, f, br, src =>
     match f with
     | .skip | .clearErr | .halt | .closureRet | .retOk | .retErrU => ([], src)
     | .seq l => l.foldl (fun (acc : List String × Src) g =>
-        let r := sitesAux fuel g acc.2
+        let r := sitesAux fuel g br acc.2
         (union acc.1 r.1, r.2)) ([], src)
     | .alt l => l.foldl (fun (acc : List String × Src) g =>
-        let r := sitesAux fuel g src
+        let r := sitesAux fuel g br src
         (union acc.1 r.1, .ext)) ([], src)
-    | .loop b => ((sitesAux fuel b src).1, .ext)
+    | .loop b => (union (sitesAux fuel b br src).1 (sitesAux fuel b br .ext).1, .ext)
     | .ext | .publish _ => ([], .ext)
     | .extU | .write _ _ => ([], .write)
     | .mk _ _ | .beginTx _ _ | .commitTx _ => ([], src)
-    | .call _ body => ((sitesAux fuel body .none).1, .call)
+    | .call _ body => ((sitesAux fuel body .none .none).1, .call)
     | .ifErr t e =>
-      let rt := sitesAux fuel t src
-      let re := sitesAux fuel e .none
+      let rt := sitesAux fuel t (if src = .none then .ext else src) src
+      let re := sitesAux fuel e .none .none
       (union rt.1 re.1, .none)
-    | .retErr pos => (if src == .write then [] else [pos], src)
-    | .retErrVar pos | .retLast pos =>
+    | .retErr pos => (if src = .write ∧ br = .write then [] else [pos], src)
+    | .retErrVar pos =>
       -- propagation of an inlined callee's error: the origin is listed inside the callee
-      (if src == .write || src == .call then [] else [pos], src)
+      (if (src = .write ∨ src = .call) ∧ br ≠ .ext then [] else [pos], src)
+    | .retLast pos => (if src = .write ∨ src = .call then [] else [pos], src)
     | .retMaybe pos => ([pos], src)
 
-def errSites (fuel : Nat) (f : Flow) : List String := (sitesAux fuel f .none).1
+def errSites (fuel : Nat) (f : Flow) : List String := (sitesAux fuel f .none .none).1
 
 end OasisModel.Handlers
